@@ -86,6 +86,7 @@ def emit_unit(uspec, log=None):
     em = cxx2c.Emitter(ast, lib, aliases=uspec.aliases, opaque_ok=uspec.opaque_ok)
     em.spec = uspec
     em.stub_aliases = uspec.stub_aliases
+    em.inline_only = uspec.inline_only
     lib.em = em
     try:
         for ent in uspec.emit:
@@ -268,6 +269,10 @@ def assemble(ub):
         emit_type(n)
     for inc in us.includes:
         L.append('#include "%s"' % inc)
+    if em.ec_consts:
+        L.append('enum { EC_OK = 0, %s };' % ', '.join('%s = %d' % (n, i + 1) for i, n in enumerate(em.ec_consts)))
+    else:
+        L.append('enum { EC_OK = 0 };')
     L.append('char *g_buf; unsigned long g_n; long g_lo, g_hi; const char *svlit_tab[8]; long g_ffo_j;')
     L.append('#ifndef VERIF_CBMC')
     L.append('unsigned long model_pre_failures;')
@@ -326,7 +331,7 @@ def assemble(ub):
                         L.append('    %sif (which == %d) { %s %s(%s); }' % ('' if j == 0 else 'else ', j, ' '.join(decls), op, ', '.join(argl)))
                     L.append('  } }')
                 continue
-            if t.endswith('*') and t.strip() != 'void *':
+            if t.endswith('*') and t.strip() != 'void *' and not t.startswith('opq_t'):
                 L.append('  { %s nd%d; *a%d = nd%d; }' % (t[:-1].strip(), i, i, i))
         if ret.strip() != 'void':
             if ret.strip().endswith('*'):
